@@ -9,6 +9,11 @@
        gotContinue/gotReady, sendDoneAfterReady, stateless common re-sending,
        applyServerACKs — the server is any ACK script.
    (c) plumbing/transport/upload_pack.go getShallowCommits (depth boundary).
+   (d) plumbing/transport/upload_pack.go serveFetchV2: which boundary the
+       history is grafted at (the client's old shallow commits, or the new
+       ones of a deepen — an EMPTY new boundary means full history), the two
+       views whose difference is sent to an already-shallow client,
+       shallow-info (unshallowedCommits), and the client's updateShallow.
 
    Names are byte strings, hashes abstract ids, stores Model/RevList's. *)
 From Coq Require Import List NArith ZArith Bool String.
@@ -468,6 +473,63 @@ Fixpoint shallow_walk (fuel : nat) (st : store) (depth : nat) (cur : option swor
     end
   end.
 
+(* ------------------------------------------------------------------ (d) *)
+(* serveFetchV2 on the final round of a fetch whose haves the server holds
+   (depth > 0 = "deepen <n>"; deepen-relative/-since/-not and include-tag are
+   not sent by the go-git client paths modelled here) *)
+Definition diff_list (a b : list oid) : list oid := filter (fun x => negb (mem x b)) a.
+
+Record v2out := mkV2 { vo_objs : list oid; vo_shallow : option (list oid * list oid) }.
+
+(* the boundary the wanted history is grafted at for an already-shallow client *)
+Definition v2_boundary (csh : list oid) (have_new : bool) (newb : list oid) : list oid :=
+  if have_new then newb else csh.
+
+(* unshallowedCommits *)
+Definition unshallowed (csh newb new_view : list oid) : list oid :=
+  filter (fun c => mem c new_view && negb (mem c newb)) csh.
+
+Definition serve_fetch_v2 (fuel : nat) (st : store) (wants haves csh : list oid) (depth : nat) : res v2out :=
+  match (if Nat.eqb depth 0 then Some (false, [])
+         else match shallow_walk fuel st depth None wants [] [] [] with
+              | Some (shl, _) => Some (true, shl)
+              | None => None
+              end) with
+  | None => Err ETree
+  | Some (have_new, newb) =>
+    match csh with
+    | _ :: _ =>
+      let boundary := v2_boundary csh have_new newb in
+      match objects st boundary wants [] with
+      | Err e => Err e
+      | Ok new_view =>
+        match objects st csh haves [] with
+        | Err e => Err e
+        | Ok client_view =>
+          Ok (mkV2 (diff_list new_view client_view)
+                   (if have_new then Some (newb, unshallowed csh newb new_view) else None))
+        end
+      end
+    | [] =>
+      let graft := have_new && negb (Nat.eqb (List.length newb) 0) in
+      match objects st (if graft then newb else []) wants haves with
+      | Err e => Err e
+      | Ok objs => Ok (mkV2 objs (if graft then Some (newb, []) else None))
+      end
+    end
+  end.
+
+(* the client's updateShallow *)
+Fixpoint add_missing (l add : list oid) : list oid :=
+  match add with [] => l | x :: r => add_missing (if mem x l then l else l ++ [x]) r end.
+Fixpoint remove_first (x : oid) (l : list oid) : list oid :=
+  match l with [] => [] | y :: r => if y =? x then r else y :: remove_first x r end.
+Definition update_shallow (csh : list oid) (info : option (list oid * list oid)) : list oid :=
+  match info with
+  | None => csh
+  | Some (shl, un) => fold_left (fun l x => remove_first x l) un (add_missing csh shl)
+  end.
+
 (* ---- correspondence entry points ---- *)
 Definition ferr_name (e : ferr) : string :=
   match e with FInvalid => "invalid" | FRefNotFound => "ref_not_found" | FFail => "fail" end.
@@ -507,4 +569,16 @@ Definition c36_shallow (st : store) (heads : list oid) (depth : nat) (fuel : nat
   match shallow_walk fuel st depth None heads [] [] [] with
   | None => OErr "walk"
   | Some (sh, un) => OOk [OList (map ON (sort_N sh)); OList (map ON (sort_N un))]
+  end.
+
+(* what a client holding [client] (shallow at csh) gains from a v2 fetch, and its shallow list afterwards *)
+Definition c36_v2serve (st client : store) (wants haves csh : list oid) (depth fuel : nat) : out :=
+  if Nat.eqb depth 0 && negb (Nat.eqb (List.length wants) 0) && forallb (fun w => mem w haves) wants
+  then OErr "nochange" else
+  match serve_fetch_v2 fuel st wants haves csh depth with
+  | Err _ => OErr "fail"
+  | Ok o =>
+    let gained := filter (fun x => match get client x with Some _ => false | None => true end) (vo_objs o) in
+    OOk [OList (map ON (dedup_sorted (sort_N gained)));
+         OList (map ON (dedup_sorted (sort_N (update_shallow csh (vo_shallow o)))))]
   end.
